@@ -28,11 +28,11 @@ CLAIMED = {
   tech=TECH+"simulated pipe between in-process find and xargs: seeded short writes/EINTR on the writer side, independent re-chunking/EINTR on the reader side"),
  "C08": dict(
   text="Seeded search over trees (long names force multi-kilobyte paths), expressions placing `-exec/-execdir CMD FIXED {} +` plainly, in parentheses, under '!', on either side of -o, in a ',' list, before `-name X -quit`, with -depth, under fault sequences (any subset of invocations failing: exit != 0, signal, spawn error) and knobs that shrink argmax's real budget (RLIMIT_STACK 512 KiB plus ~100 KB of environment) so that small trees need several batches. Oracle over the interleaved history of output records and spawns: conservation and order of paths, one directory and ./basename per -execdir invocation with the right cwd, nothing pending at exit (incl. after -quit), OS acceptability (formula, confirmed by real execve), action always true, exit status non-zero iff an invocation failed.",
-  note="Trusted: the marker-before-action observation of 'reached', the H3 seam; fork/exec is stubbed except for the E2BIG confirmation.",
+  note="Trusted: the marker-before-action observation of 'reached', the H3 seam; fork/exec is stubbed except for the E2BIG confirmation and the runs with real children.",
   tech=TECH+"scripted child-failure subsets x argument-budget knobs; history oracle over interleaved sink records and spawn requests"),
  "C09": dict(
   text="Seeded search over hostile file names and argument templates (0/1/several {} per argument, {} embedded in text, operator look-alikes) for -exec/-execdir ... ; with the child-outcome script as fault sequence (exit 0..255, signals, ENOENT/EACCES/ENOMEM/E2BIG) and, in a quarter of the runs, children that change the tree they run on (unlink the file, remove/replace the directory about to be entered, create siblings, rename) at scripted spawn instants. Oracle over the interleaved history: exactly one spawn per reached entry at that point, exact substituted argv (./basename + parent cwd for -execdir), truth marker iff exit 0, find's status unaffected, unrelated entries still visited exactly once after a mutation, no panic or hang.",
-  note="Trusted: marker-based observation of 'reached', substitution reference (10 lines), the H2 seam. -P only.",
+  note="Trusted: marker-based observation of 'reached', substitution reference (10 lines), the H2 seam (passed through to real children in one run in 25).",
   tech=TECH+"scripted child outcomes and tree-mutating children at spawn instants; history oracle over interleaved records and spawns"),
  "C10": dict(
   text="Twin sandboxes A and B with identical real trees (incl. an outside area and links into it): `find ROOTS -depth EXPR -print0` on A defines the expected set and order (itself checked against an independent reference post-order), `find ROOTS EXPR -print0 -delete -printf MARK` then runs on A, and a reference executor applies the statement's rule (lstat: real directory -> rmdir, else unlink) to B path by path, replaying the scripted racing mutations at the same instants. Injected faults: ENOTEMPTY, EACCES (parent 0555 under a dropped uid), ENOENT and refilled directories from a racing process acting between marker and action. Oracle: same entries in the same order, -delete true exactly where the reference removal succeeded, full snapshots of A and B equal (inside and outside the starting points), exit status and one diagnostic per failure.",
@@ -52,19 +52,20 @@ CLAIMED = {
   tech=TECH+"simulated stdin schedule x child-outcome history over xargs -I, history oracle against a reference substituter"),
 }
 
-XC = " The thorough tier ends with a binary cross-check: the first 400 comparable scenarios through the in-process seams and through the find/xargs executables built from /repo with the hooks feature off (real pipes, real children); a disagreement is exit 2."
+XC = " Both tiers end with a binary cross-check: the first 150 (quick) / 600 (thorough) comparable scenarios also go through the find/xargs executables built from the working tree with the hooks feature off (real children; xargs' standard input in turn a pipe, a regular file, a regular file read from an offset). A difference in exit status, child arguments, working directories or output bytes is a VIOLATION with a replay file; a difference in the mere presence of diagnostics is a harness error (exit 2)."
+ENVX = " The process environment is a scenario dimension: variables no statement mentions (POSIXLY_CORRECT, TZ with daylight saving, LC_ALL, ...) and, for find, a terminal as descriptor 1."
 EXT = {
- "C02": XC,
- "C04": " A small slice runs real children, which must receive what the seam recorded and must not be able to read xargs' own input stream." + XC,
- "C05": " Also: both -0 and -d C in either order (the one given last applies), delimited fields beyond the 8 KiB BufReader, unclosed quotes followed by kilobytes of text, and CR/VT/FF, which are compared across read plans only." + XC,
+ "C02": " Starting points also come through -files0-from (with a zero-length name, or without the final NUL); one run in 25 walks a chain 24-48 levels deep while the soft RLIMIT_NOFILE leaves 16-22 free descriptors." + ENVX + XC,
+ "C04": " A small slice runs real children, which must receive what the seam recorded and must not be able to read xargs' own input stream; one run in 60 carries an argument 1-200 bytes short of the kernel's 128 KiB single-string limit." + ENVX + XC,
+ "C05": " Also: both -0 and -d C in either order (the one given last applies), delimited fields beyond the 8 KiB BufReader, unclosed quotes followed by kilobytes of text, CR/VT/FF (compared across read plans only), the built-in echo judged on xargs' own output, the stream read from a real -a FILE (also one in /proc, whose size is reported as 0), and 20000-300000 consecutive separators on a thread with a small stack (a worker killed by the code under test is the violation <ID>.crash)." + ENVX + XC,
  "C06": " One run in six is replace mode (-I {}) with templates of 1-6 placeholders and lines sized so that a substituted argument lands at the per-argument limit or the whole substituted command line at the kernel budget; one in forty exceeds the kernel's 6 MiB ceiling under a large or unlimited stack limit. Where the accounting says an argument cannot be passed but xargs passed it, a real execve of that command line decides.",
- "C07": " A quarter of the runs use -H/-L/-follow; the starting point itself may be named by blanks only, contain a newline, a quote or be multi-byte." + XC,
- "C08": " Also -mindepth/-maxdepth, starting points with directory components, a crowded directory below the top (several batches from inside one directory), and file names that are not valid UTF-8." + XC,
- "C09": " Also file names that are not valid UTF-8, starting points with directory components, template arguments spelled like find's own options (-help, --version, -delete, ...); when no test precedes the action every entry of an independent reference walk must reach it." + XC,
- "C10": " Also `( -delete ... -o -quit )` (the first failing removal ends the walk and must still give a non-zero status) and names that are not valid UTF-8. Diagnostics are counted, never matched by wording.",
- "C15": " A fifth of the runs carry a second time test in the same expression (often on the same reference file). Every run also constructs the real StandardDependencies, lets the clock advance and requires now() to lie inside the construction interval and to be stable: 'now' is fixed when find starts.",
- "C19": " Also replace mode, empty input (the single invocation's outcome is the status), a quote as the very last byte, and a decoy file named like the command in the current directory (a command that cannot be found stays 127)." + XC,
- "C20": " Also -s that every line fits by 0-5 bytes (each line must still run), and a slice with real children, which must not be able to read xargs' own input stream." + XC,
+ "C07": " A quarter of the runs use -H/-L/-follow; the starting point itself may be named by blanks only, contain a newline, a quote or be multi-byte, or come from -files0-from; a fifth of the runs use xargs -0 -I{}." + ENVX + XC,
+ "C08": " Also -mindepth/-maxdepth, starting points with directory components or spelled DIR/.., a crowded directory below the top (several batches from inside one directory), a second {} + action, and file names that are not valid UTF-8. One run in 25 has real child processes (their own log of arguments and working directory, by device and inode, must agree with the seam's record and every invocation must start), two thirds of those from a working directory 2000-6000 bytes deep, beyond PATH_MAX." + ENVX + XC,
+ "C09": " Also file names that are not valid UTF-8, starting points with directory components or spelled DIR/.., template arguments spelled like find's own options (-help, --version, -delete, ...), a second action, follow modes; when no test precedes the action every entry of an independent reference walk must reach it. One run in 25 has real child processes, two thirds of those from a working directory beyond PATH_MAX; one in 150 fills the command line at run time to 300-5200 bytes under what the system accepts (the kernel is asked first)." + ENVX + XC,
+ "C10": " Also `( -delete ... -o -quit )` (the first failing removal ends the walk and must still give a non-zero status), names that are not valid UTF-8, find's working directory inside the tree it deletes (the first starting point reached as ../t; the reference removals run from the same directory with the same relative names) and starting points spelled DIR/.. . Diagnostics are counted, never matched by wording." + ENVX,
+ "C15": " A fifth of the runs carry a second time test in the same expression (often on the same reference file); ages and reference timestamps reach back before 1970. Every run also constructs the real StandardDependencies, lets the clock advance and requires now() to lie inside the construction interval and to be stable: 'now' is fixed when find starts." + ENVX,
+ "C19": " Also replace mode, empty input (the single invocation's outcome is the status), a quote as the very last byte, and a decoy file named like the command in the current directory (a command that cannot be found stays 127)." + ENVX + XC,
+ "C20": " Also -s that every line fits by 0-5 bytes (each line must still run), -0/-d together with the replace option, a line that makes one argument 1-200 bytes short of the kernel's 128 KiB single-string limit, and a slice with real children, which must not be able to read xargs' own input stream." + ENVX + XC,
 }
 
 NA = {
